@@ -108,6 +108,25 @@ def inputs(ctx):
                 for drop in (False, True):
                     ins.append({"id": "t%d" % n, "lines": paint_program(rng, nrows, drop, adjacent), "doubled": doubled})
                     n += 1
+    # every pattern of mode switches up to four parts (P = paint-on block, R = roll-up block), each
+    # part left with text pending when the next mode command arrives
+    import itertools
+    for npat in (2, 3, 4):
+        for pat in itertools.product("PR", repeat=npat):
+            if all(a == pat[0] for a in pat):
+                continue
+            for doubled in (False, True):
+                drop = (n % 2 == 0)
+                lines = []
+                f = 300
+                for pi, kind in enumerate(pat):
+                    part = (paint_program(rng, 1 + (pi % 2), drop, True) if kind == "P" else
+                            roll_program(rng, 2 + pi % 3, 15, 1 + (pi % 2), drop, False, final_cr=False))
+                    for ln in part:
+                        lines.append({"tc": _tc(f), "drop": drop, "syms": ln["syms"]})
+                        f += len(ln["syms"]) * 2 + 40
+                ins.append({"id": "m%d" % n, "lines": lines, "doubled": doubled})
+                n += 1
     for k in range(400 if ctx.quick else 20000):
         drop = rng.random() < 0.5
         parts = []
